@@ -18,3 +18,10 @@ PROP = {
         "positive theorems for the code AS IT IS exclude ASCII items containing '>' (finding C13-ascii-gt, refuted with witness) and localized text that strconv.Quote escapes (finding C13-localized-quote, refuted with witness); the theorems named _fixed are about the repaired writer of fixes/C13-escape-gt.diff, not about the code",
     ],
 }
+
+
+MANIFEST = {
+    "text": "Coq theorems: the strict parser model reads back the strict encoder model's text for EVERY message of the stated grammar and EVERY option combination (quote style, S/F quote style, indent, binary style), with the same S/F/W and an equal body (NaN payload and localized header aside), and every accepted text re-encodes and re-parses to an equal message; the ASCII core is proved for all 256 byte values (runs, escapes, 0xHH tokens, empty string). One input class is refuted with a witness and recorded as a known finding (localized text that strconv.Quote escapes); the '>' class was refuted, then repaired in the code (fix a839e6b) and the theorem now holds for all bytes. Tied by a differential on EncodeMessage text and ParseStrict results (accept/reject, messages, error class and offset).",
+    "note": 'strconv.FormatFloat / ParseFloat / Quote and the float32 conversion are Section oracles whose laws are explicit premises of the theorems that use them, validated on every generated value; ParseInt/ParseUint are modelled and compared. Positive theorems exclude the refuted localized class.',
+    "technique": 'Rocq/Coq proof (structural induction over item trees; rune-level model of parseASCIIStrict) + extracted-model differential both directions incl. error class and offset',
+}
